@@ -71,7 +71,7 @@ def decorate(shapes, seed=0, feat=frozenset()):
     for shape, given in shapes:
         n += 1
         name = given or f"n{n}"
-        if dotted and re.fullmatch(r"n\d+", name):
+        if dotted and re.fullmatch(r"n\d+", name) and rnd.random() < 0.6:
             name = f"{name}.a-b"
         row = {}
         info = {"shape": shape, "name": None, "row": n, "path": None}
